@@ -16,7 +16,7 @@ CLAIMS = {
     "C04": ("5.C04", "Per-request accounting of factory calls, argument identity and tasks for apply/start under blocking, competing requests, locks and unrelated cancellations; work-conservation at idle."),
     "C05": ("5.C05", "Counting iterators and call-time observing factories check element mapping, order, laziness (after every pull/creation), per-call concurrency bound and work conservation at idle for the three map variants."),
     "C06": ("5.C06", "cancel(ids) with valid/repeated/stale/flushed/never-issued ids at every point of seeded histories; all-or-nothing and exactly-one-CancelledError checked through worker observations."),
-    "C07": ("5.C07", "cancel_group/cancel_all inserted at every handle boundary and every re-entrant op point of seeded base runs; no start/call/pull after the cancel, group forgotten, siblings undisturbed."),
+    "C07": ("5.C07", "cancel_group/cancel_all inserted at every handle boundary and every re-entrant op point of seeded base runs; no start/call/pull after the cancel, group forgotten, siblings undisturbed and still progressing (every progress oracle of C04/C05 is charged to C07 once a group was cancelled in the pool); group cancels while flush/gather_and_close calls wait; a cancelled group's name taken again at once."),
     "C08": ("5.C08", "gather_and_close at every boundary of seeded histories incl. same-tick cancelled spawners and slow callbacks; return-time invariants, until_closed waiters, closed-for-good."),
     "C09": ("5.C09", "Rejected requests (every cause and combinations) at arbitrary points of busy histories: observable snapshot identical before/after, exception among the applicable documented ones."),
     "C10": ("5.C10", "get_group_ids per live request equals the ids of tasks its spawner created, at every idle point; generated names match the documented pattern and never collide with a live group."),
@@ -25,11 +25,11 @@ CLAIMS = {
     "C13": ("5.C13", "flush (1-3 overlapping) at every boundary of runs with tasks ending, being cancelled and held in slow callbacks; forget-state interval model (must-know / may-forget / must-forget)."),
     "C14": ("5.C14", "stop(n)/stop_all on SimpleTaskPool histories with gaps; returned ids vs ledger, exactly those workers observe one cancellation."),
     "C15": ("5.C15", "Directed family over (class, old size, new size, running, waiting) x seeded timing: getter vs configured maximum, limit in force after assignment, wake-up of waiting spawners, negative values. Reports the recorded finding F-SIZE; every other oracle is strict."),
-    "C20": ("5.C20", "Real Queue on the simulated loop with gated consumer bodies, joiners and bounded queues; join() completion vs the harness count of exited blocks, qsize at idle points; consumer cancellation placed at every handle boundary (pairs on short runs); backlogs up to 1100 items and cancellation sweeps around the K-th consecutive take."),
+    "C20": ("5.C20", "Real Queue on the simulated loop with gated consumer bodies, joiners and bounded queues, items of any truth value, user queue subclasses; join() completion vs the harness count of exited blocks, qsize at idle points; consumer cancellation placed at every handle boundary (pairs on short runs); backlogs up to 1100 items and cancellation sweeps around the K-th consecutive take."),
     "C16": ("5.C16", "Real server/session/parser over the simulated network: handshake under fragmentation/latency/concurrent clients for stock and shim classes (+subclasses with extra members), tcp and unix, every terminal width 0..140 and samples up to 65536; runs with an earlier history (restart, abrupt sessions); help of every public member (incl. static methods and mixed-case names) and the top-level command list. Reports the recorded finding F-C16 for the stock classes."),
     "C17": ("5.C17", "Twin runs: each seeded command program is executed through a session over the simulated network and as the equivalent direct calls in an identical simulation; replies, pool observables and worker start records are compared command by command; seeded line terminators; a twin with 16 300-20 000 tasks (replies above 100 KiB)."),
     "C18": ("5.C18", "Seeded valid and mutated lines, pipelined and fragmented, in 1-11 concurrent sessions (storms of 17-130 clients before a regular one), lines up to 60 000 characters: one server write per line in order, no session exception, usage/error replies leave the pool unchanged, nothing printed, no SystemExit, replies carry no foreign token, short reply after long help. Reports the recorded findings F-LONGLINE and F-EARLY (through a session)."),
-    "C19": ("5.C19", "Seeded server lifecycles over tcp/unix with 0-11 raw and bundled clients (storms of up to 130), restarts of the same server object (after a complete stop and while old clients are still connected), stale socket files, sessions parked in waiting commands, every disconnect kind (close, exit, EOF, reset, vanish) and the stop swept over handle boundaries: serve_forever promptness, undisturbed sessions, completion of the cancelled serving task, refused connects, socket file removed; a watchdog turns a loop stalled inside one handle into a violation. Reports the recorded finding F-PARKED."),
+    "C19": ("5.C19", "Seeded server lifecycles over tcp/unix with 0-11 raw and bundled clients (storms of up to 130), restarts of the same server object (after a complete stop and while old clients are still connected), stale socket files, sessions parked in waiting commands, every disconnect kind (close, exit, EOF, reset, vanish) and the stop swept over handle boundaries: serve_forever promptness, undisturbed sessions, normal completion of the cancelled serving task (also when the stop is requested twice; a serving task that ends as cancelled is a violation), refused connects, socket file removed; a watchdog turns a loop stalled inside one handle into a violation. Reports the recorded finding F-PARKED."),
 }
 
 NOT_YET = {}
